@@ -2,6 +2,16 @@
 from checklib import cbytes, cbool, clist, cpair, cN, copt
 
 ID = "C16"
+# source constants of this property: Gen/Params.v is regenerated from the working tree, Proofs/ParamsTie.vo
+# (lemma per constant: it is the value the models use) is built with the property (lib/paramsgen.py)
+import paramsgen
+EXTRA_TARGETS = [paramsgen.TARGET]
+
+
+def pre_build(ctx):
+    paramsgen.regenerate(ctx)
+
+
 HARNESS = "c16"
 N_CASES = {"quick": 160, "thorough": 2500}
 N_SEARCH = {"quick": 1, "thorough": 2}
